@@ -46,6 +46,7 @@ package plugin
 //@   ensures $failed ==> res.Error != nil
 //@   modifies *
 //@   site call:cmd.Run assert ncalls("compressThriftInclude") == ncalls("appendDataTrailer")
+//@   site call:cmd.Run assert cmd.Cancel == nil && cmd.WaitDelay == 0
 
 // Include compression (experimental, behind an environment variable): assumed contracts; they only redirect
 // Include.Reference links and fill the map they are given.
